@@ -24,6 +24,13 @@ pub(crate) fn is_not_found_error_kind(error: &std::io::Error) -> bool {
 /// It will delete directories even if their permissions would normally prevent deletion as
 /// long as the current user is the owner of them (or root).
 pub(crate) fn remove_dir_recursively(dir: &Path) -> std::io::Result<()> {
+    // Like `rm -rf`, never follow a symbolic link: if the given path itself is a symlink, only the
+    // link is removed. Changing permissions and listing entries below would otherwise operate on
+    // the link's target, which is not ours to modify or delete.
+    if dir.symlink_metadata()?.file_type().is_symlink() {
+        return fs::remove_file(dir);
+    }
+
     // To delete a directory, the current user must have the permission to write and list the
     // directory (to empty it before deleting). To reduce the possibility of permission errors,
     // we try to set the correct permissions before attempting to delete the directory and the
